@@ -24,6 +24,9 @@ class Contract:
         self.params = kw.pop("params", {})
         self.cases = kw.pop("cases", None)          # list of dicts overriding params (type variants)
         self.requires = list(kw.pop("requires", []))
+        # structural invariants of the built object graph, ASSUMED at entry and not re-checked at call sites
+        # (listed in the evidence as assumptions)
+        self.assumes = list(kw.pop("assumes", []))
         self.ensures = list(kw.pop("ensures", []))
         self.raises = {k: (list(v) if isinstance(v, (list, tuple)) else [v])
                        for k, v in kw.pop("raises", {}).items()}
@@ -313,28 +316,33 @@ def code(E, name):
 
 @specfunc
 def ct_len(E):
-    return Sym(E.llen(E.ct), "int")
+    return Sym(E.ct_length(), "int")
 
 
 @specfunc
 def ct_code(E, k):
-    return E.lget(E.ct, zint(k))[0]
+    return E.ct_get(zint(k))[0]
 
 
 @specfunc
 def ct_recv(E, k):
-    return E.lget(E.ct, zint(k))[1]
+    return E.ct_get(zint(k))[1]
 
 
 @specfunc
 def ct_arg(E, k):
-    return E.lget(E.ct, zint(k))[2]
+    return E.ct_get(zint(k))[2]
+
+
+@specfunc
+def ct_res(E, k):
+    return E.ct_get(zint(k))[3]
 
 
 @specfunc
 def ct_is(E, k, name, recv=None, arg=None):
     """event k of the call trace is a call of `name` on receiver `recv` (with first argument `arg`)"""
-    ev = E.lget(E.ct, zint(k))
+    ev = E.ct_get(zint(k))
     conds = [ev[0].t == _call_code(name)]
     if recv is not None:
         conds.append(ev[1].t == (recv.t if hasattr(recv, "t") else zint(recv)))
@@ -348,12 +356,14 @@ def opaque_method(name, ret_ty=None, effect=None):
     trace as (name, receiver, first argument), applies `effect(E, obj, args, kwargs)` (havoc) and returns a fresh value"""
     def attr_hook(E, obj):
         def m(E2, *args, **kwargs):
-            E2.ct_append(name, obj, args[0] if args else None)
+            slot = E2.ct_append(name, obj, args[0] if args else None)
             if effect:
                 effect(E2, obj, args, kwargs)
             if ret_ty is None or ret_ty.kind == "none":
+                E2.ct_bind_result(slot, None)
                 return None
             v = E2.fresh_val("ret_" + name.replace(".", "_"), ret_ty)
+            E2.ct_bind_result(slot, v)
             E2.ghost.setdefault("rets", []).append((name, v))
             return v
         m._specfunc = True
@@ -364,11 +374,11 @@ def opaque_method(name, ret_ty=None, effect=None):
 @specfunc
 def ct_arg_list(E, k, et):
     """the list object passed as first argument of call-trace event k (its CURRENT contents)"""
-    ev = E.lget(E.ct, zint(k))
+    ev = E.ct_get(zint(k))
     return ListV(ev[2].t, et)
 
 
-def havoc_all_but(fields_by_class, keep):
+def havoc_all_but(fields_by_class, keep, wf=()):
     """modifies entry: the named fields may change on EVERY object except the ones `keep` (spec expressions)
     evaluates to.  Used for opaque acts / auxiliary framers under the no-re-entrancy assumption."""
     def m(E):
@@ -384,6 +394,9 @@ def havoc_all_but(fields_by_class, keep):
                         E.assume(z3.Select(new, kv.t) == z3.Select(old, kv.t))
                     E.heap[key] = new
                     E.note_write(key, z3.Int("any!ref"))
+        for clause in wf:
+            # system-wide well-formedness the opaque parts are ASSUMED to preserve (listed in the evidence)
+            E.assume(E.spec_eval(clause))
     m.frame = lambda E: []
     m.allbut = (fields_by_class, keep)
     return m
